@@ -25,7 +25,7 @@ pub fn dispatch(cmd: &str, a: &Args) -> Option<Result<()>> {
         "trace-container" => Some(trace(a)),
         "trace-varint" => Some(trace_varint(a)),
         "mk-inputs" => Some(mk_inputs(a)),
-        "create" => Some(create_cmd(a)),
+        "container-create" => Some(create_cmd(a)),
         "trace-truncate" => Some(trace_truncate(a)),
         "fault-sweep" => Some(fault_sweep(a)),
         _ => None,
@@ -779,7 +779,7 @@ fn fault_sweep(a: &Args) -> Result<()> {
                     c
                 } else {
                     let mut c = std::process::Command::new(exe);
-                    c.arg("create").arg("--dir").arg(indir).arg("--out").arg(&outp).args(["--threads", "1"]);
+                    c.arg("container-create").arg("--dir").arg(indir).arg("--out").arg(&outp).args(["--threads", "1"]);
                     if big {
                         c.arg("--big");
                     }
